@@ -513,6 +513,9 @@ class Impl:
             else:
                 views[name] = tuple(self.canon(dt, l.data[c]) for c in self.cells)
         snap["attached"], snap["views"] = att, views
+        # which layers share their array (legacy `rebind`): the representative is the first layer with that array object
+        objs = [l.data for l, _ in self.layers]
+        snap["alias"] = [next(j for j, o in enumerate(objs) if o is objs[i]) for i in range(len(objs))]
         # the third view: grid.<name> is the layer object itself (new: HasPropertyLayers.__getattr__)
         snap["gattr"] = ({name: getattr(self.grid, name, None) is l for name, l in self.attached().items()}
                          if self.kind == "new" else {})
@@ -841,6 +844,20 @@ class Impl:
             layer, dt = self.layer(int(w[2]))
             self.handles[int(w[1])] = (layer.data, dt)  # an array never changes its dtype
             return "ok"  # (a reference to grid.empty.data is harmless until it is written through: see hset)
+        if k == "rebind":
+            # legacy `layer.data = <held array>`: a plain attribute, nothing is copied — the layer now shares that array
+            if new:
+                raise Reject("Impl")
+            layer, _ = self.layer(int(w[1]))
+            if int(w[2]) not in self.handles:
+                raise Reject("NoHandle")
+            arr, _ = self.handles[int(w[2])]
+            if tuple(arr.shape) != tuple(self.ldims(layer)):
+                raise Reject("Value dims")  # protocol precondition (Python itself would take any object)
+            if np.shares_memory(arr, self.grid.empty_mask):
+                raise Reject("Impl")  # the grid's own mask as a layer's array is kept out of the protocol
+            layer.data = arr
+            return "ok"
         if k == "grabmask":
             if new:
                 raise Reject("Impl")
@@ -1108,6 +1125,8 @@ class Impl:
             want = a
             if k == "modify" and int(w[1]) == lid and is_typed(w[4]):
                 want = spec_result_dtype(w[3], a, w[4])
+            if k == "rebind" and int(w[1]) == lid:
+                want = self.handles[int(w[2])][1]  # the layer takes the dtype of the array it now shares
             if b != want:
                 self.fail("dtype", f"after {' '.join(w)}: layer {lid} has dtype {b}, expected {want} (before: {a})")
         # (4) effect and frame of the successful call on all layer values
@@ -1179,10 +1198,20 @@ class Impl:
                 self.fail("copy", f"{' '.join(w)}: the new layer shares memory with the source array")
             if tuple(made.dimensions) != tuple(arr.shape) or self.dt_of(made) != dt:
                 self.fail("copy", f"{' '.join(w)}: shape/dtype {made.dimensions}/{self.dt_of(made)} of the layer differ from the array's {arr.shape}/{dt}")
+        elif k == "rebind":
+            exp[int(w[1])] = list(old["handles"][int(w[2])])  # the layer reads the held array from now on
         elif k == "hset":
             skip = set(range(len(exp)))  # which layer (if any) the handle still aliases is the model's business
         elif k in ("place", "move", "remove") and empty_lid is not None:
             skip = {empty_lid}  # clause (2) speaks about it
+        # layers that shared the written layer's array before the call see the same write (in place: everything but the
+        # re-pointing modify_cells, which gives only the called layer a new array)
+        if k in ("lset", "cset", "cset2", "setcells", "setfrom", "modcell") and any(i != a for i, a in enumerate(old["alias"])):
+            wl = old["attached"].get(w[1]) if k == "cset" else int(w[1])
+            if wl is not None and wl < len(old["alias"]):
+                for j, a in enumerate(old["alias"]):
+                    if j != wl and a == old["alias"][wl]:
+                        exp[j] = list(exp[wl])
         got = [list(x) for x in new["layers"]]
         for lid in range(max(len(exp), len(got))):
             if lid in skip:
@@ -1353,6 +1382,7 @@ class Gen:
         captok = "0" if self.cap is None else "zero" if self.cap == 0 else str(self.cap)
         self.lines = [f"scenario {self.kind} {'x'.join(map(str, self.dims))} {captok} {self.gridclass} {int(self.torus)}"]
         self.handles, self.saved, self.where = [], [], {}
+        self.mask_handles = set()  # handles currently bound to the legacy grid's own mask
         self.muls = 0
         # names the cell class of the running code has (the generated table of the model): a layer may not take them
         self.all_clash = cell_klass_probe() if self.kind == "new" else []
@@ -1677,16 +1707,29 @@ class Gen:
             if 0 not in dims:  # (from_data of an array without entries: IndexError, no layer)
                 self.layers.append(dict(name=name, dtype=dt, dims=tuple(dims), att=False))
             return
+        if self.kind != "new" and self.handles and R.random() < 0.1:
+            # legacy `layer.data = <held array>`: two layers may now share one array; follow up with writes through either
+            h, dims, hdt = R.choice(self.handles)
+            cands = [i for i, l in enumerate(self.layers) if tuple(l["dims"]) == tuple(dims)]
+            i = R.choice(cands) if cands and R.random() < 0.9 else self.lid()
+            if i is None:
+                return self.op_create()
+            self.emit(f"rebind {i} {h}")
+            if i < len(self.layers) and tuple(self.layers[i]["dims"]) == tuple(dims) and (h, "mask") not in self.mask_handles:
+                self.layers[i]["dtype"] = hdt
+            return
         if not self.handles or R.random() < 0.35:
             h = R.randrange(3)
             if self.kind != "new" and R.random() < 0.25:
                 # legacy: a reference to grid.empty_mask (the live array): reads through it follow the agents
                 self.emit(f"grabmask {h}")
                 self.handles = [x for x in self.handles if x[0] != h] + [(h, self.dims, "bool")]
+                self.mask_handles.add((h, "mask"))
                 return
             i = 0 if (self.kind == "new" and R.random() < 0.12) else self.lid()
             if i is None:
                 return self.op_create()
+            self.mask_handles.discard((h, "mask"))
             self.emit(f"grab {h} {i}")
             if i < len(self.layers):
                 self.handles = [x for x in self.handles if x[0] != h] + [(h, self.layers[i]["dims"], self.layers[i]["dtype"])]
@@ -1850,6 +1893,7 @@ def tags(sc, obs):
     seen = set()
     zero = set()  # ids of layers without entries
     eref = set()  # handles that (at the time they were taken) alias the emptiness array
+    rebound = False
     for l, o in zip(sc.lines[1:], obs[1:]):
         w = l.split()
         t = ["op:" + w[0]]
@@ -1859,6 +1903,12 @@ def tags(sc, obs):
                 t.append("emptiness-ref:taken:" + w[0])
             else:
                 eref.discard(w[1])
+        if w[0] == "rebind":
+            t.append("rebind:" + ("ok" if o.startswith("ok") else o[4:].replace(" ", "-")))
+            if o.startswith("ok"):
+                rebound = True
+        if rebound and w[0] in ("lset", "cset", "setcells", "setfrom", "modcell", "modify") and o.startswith("ok"):
+            t.append("after-rebind:" + w[0])
         if w[0] in ("hget", "hdump", "hset") and w[1] in eref and o.startswith("ok"):
             t.append("emptiness-ref:" + ("write" if w[0] == "hset" else "read"))
         if w[0] == "new" and "0" in w[2].split("x"):
